@@ -17,5 +17,12 @@ Mismatch(line, what, detail) == /\ PrintT("MISMATCH@" \o ToString(line) \o "@" \
                                 /\ PrintT("ENDMISMATCH")
 Require(cond, line, what, detail) == IF cond THEN TRUE ELSE Mismatch(line, what, detail)
 
+\* Behaviour the specification describes but NO listed property demands (the wording of an error message, the Debug
+\* rendering of a generated type): a deviation is reported as an observation, never as a violation of a property
+Note(line, what, detail) == /\ PrintT("NOTE@" \o ToString(line) \o "@" \o what)
+                            /\ PrintT(detail)
+                            /\ PrintT("ENDNOTE")
+Observe(cond, line, what, detail) == IF cond THEN TRUE ELSE Note(line, what, detail)
+
 Accepted == TLCGet("stats").diameter - 1 = Len(Rec)
 =============================================================================
